@@ -282,3 +282,35 @@ class AnyList:
 
     def __deepcopy__(self, memo):
         return self
+
+
+class SuperProxy:
+    """Value of `super()` inside a method: attribute lookup continues after `cls` in type(self_val)'s MRO."""
+
+    def __init__(self, cls, self_val):
+        self.cls = cls
+        self.self_val = self_val
+
+    def __deepcopy__(self, memo):
+        return self
+
+
+class CodeVal:
+    """Result of compile(src, ..., 'exec') for a concrete source text."""
+
+    def __init__(self, src):
+        self.src = src
+
+    def __deepcopy__(self, memo):
+        return self
+
+
+class GenericAlias:
+    """list[int], tuple[str, ...] etc."""
+
+    def __init__(self, origin, args):
+        self.origin = origin
+        self.args = tuple(args)
+
+    def __deepcopy__(self, memo):
+        return self
